@@ -10,6 +10,7 @@ import (
 	"errors"
 	"fmt"
 	"io"
+	"net"
 	"net/http"
 	"net/http/httptest"
 	"sync"
@@ -257,6 +258,19 @@ func (r *chunkReader) Read(p []byte) (int, error) {
 	return n, nil
 }
 
+// chunkLimit reads at most chunk bytes at a time from r
+type chunkLimit struct {
+	r     io.Reader
+	chunk int
+}
+
+func (c *chunkLimit) Read(p []byte) (int, error) {
+	if c.chunk > 0 && len(p) > c.chunk {
+		p = p[:c.chunk]
+	}
+	return c.r.Read(p)
+}
+
 type stampWriter struct {
 	mu     sync.Mutex
 	hdr    http.Header
@@ -290,10 +304,13 @@ type CopyCase struct {
 	Chunk  int    `json:"chunk"`
 	FailAt int    `json:"failAt"`
 	Reset  bool   `json:"reset"`
-	Class  string `json:"class"` // expected End-Of-Response
-	Fwd    int    `json:"forwarded"`
-	Rate   int64  `json:"rate"`
-	Burst  int64  `json:"burst"`
+	// StallAt >= 0: the function response comes over a connection; the runtime sends StallAt bytes and then
+	// nothing more, without closing (the copy is blocked reading until the reset closes the connection)
+	StallAt int    `json:"stallAt"`
+	Class   string `json:"class"` // expected End-Of-Response
+	Fwd     int    `json:"forwarded"`
+	Rate    int64  `json:"rate"`
+	Burst   int64  `json:"burst"`
 }
 
 type CopyReport struct {
@@ -320,18 +337,42 @@ func RunCopy(cases []CopyCase) *CopyReport {
 		interrupted := make(chan *interop.Reset)
 		sent := make(chan *interop.InvokeResponseMetrics, 1)
 		var src io.Reader = &chunkReader{data: data, chunk: c.Chunk, failAt: c.FailAt}
+		var creq *interop.CancellableRequest
+		stalled := c.StallAt >= 0 && c.StallAt < len(data)
+		var rtSide net.Conn
+		if stalled {
+			var srvSide net.Conn
+			srvSide, rtSide = net.Pipe()
+			go func(n int) { rtSide.Write(data[:n]) }(c.StallAt) // ... and then silence
+			src = &chunkLimit{r: srvSide, chunk: c.Chunk}
+			hr, _ := http.NewRequest("POST", "http://runtime/response", nil)
+			creq = &interop.CancellableRequest{Request: hr.WithContext(context.WithValue(context.Background(), interop.HTTPConnKey, srvSide))}
+		}
 		done := make(chan error, 1)
 		go func() {
-			done <- directinvoke.SendDirectInvokeResponse(map[string]string{}, src, http.Header{}, w, interrupted, sent, nil, true, "inv-1")
+			done <- directinvoke.SendDirectInvokeResponse(map[string]string{}, src, http.Header{}, w, interrupted, sent, creq, true, "inv-1")
 		}()
+		acked := true
 		if c.Reset {
-			// a reset arrives while the copy is being throttled
+			// a reset arrives while the copy is being throttled, or is blocked reading from a runtime that stalls
 			time.Sleep(150 * time.Millisecond)
+			acked = false
 			select {
 			case interrupted <- &interop.Reset{Reason: "timeout"}:
-				<-interrupted
+				select {
+				case <-interrupted:
+					acked = true
+				case <-time.After(3 * time.Second):
+				}
 			case <-time.After(3 * time.Second):
 			}
+		}
+		if !acked {
+			rep.Mismatches = append(rep.Mismatches, map[string]interface{}{"case": c, "what": "the reset was not acknowledged within 3 s: the copy did not terminate"})
+			if rtSide != nil {
+				rtSide.Close()
+			}
+			continue
 		}
 		var err error
 		select {
@@ -341,6 +382,9 @@ func RunCopy(cases []CopyCase) *CopyReport {
 			continue
 		}
 		_ = err
+		if rtSide != nil {
+			rtSide.Close()
+		}
 		rep.Cases++
 		w.mu.Lock()
 		got := append([]byte{}, w.buf.Bytes()...)
@@ -351,6 +395,10 @@ func RunCopy(cases []CopyCase) *CopyReport {
 		switch {
 		case class != c.Class:
 			what = fmt.Sprintf("End-Of-Response %q, specification says %q", class, c.Class)
+		case stalled && c.Reset && len(got) != c.Fwd:
+			what = fmt.Sprintf("%d bytes forwarded before the runtime stalled, specification says %d", len(got), c.Fwd)
+		case stalled && c.Reset && w.hdr.Get("Lambda-Runtime-Function-Error-Type") != "Sandbox.Timeout":
+			what = fmt.Sprintf("error type trailer %q after a timeout reset, expected Sandbox.Timeout", w.hdr.Get("Lambda-Runtime-Function-Error-Type"))
 		case c.Class != "Truncated" && len(got) != c.Fwd:
 			what = fmt.Sprintf("%d bytes forwarded, specification says %d", len(got), c.Fwd)
 		case !bytes.Equal(got, data[:len(got)]):
